@@ -1,7 +1,7 @@
 (** extraction of the C02 model: specifications, sign layer over the regenerated tables, and the
     word-level as-is models instantiated at the 64-bit word of the default build *)
 Require Import FastZ.
-From Dashu Require Import Base.Prelude Base.Words Int.DivSpec Int.DivWordModel Int.DivWordInst Int.DivNumModular Int.DivSrcInst Int.DivPrim Int.DivMemBase Int.DivMemModel.
+From Dashu Require Import Base.Prelude Base.Words Int.DivSpec Int.DivWordModel Int.DivWordInst Int.DivNumModular Int.DivSrcInst Int.DivPrim Int.DivMemBase Int.DivMemModel Int.DivOwn Int.DivRemIdx.
 From DashuGen Require Import SignTables Params DivDispatch.
 
 Definition m_repr_div_rem := i_repr_div_rem 64.
@@ -25,10 +25,19 @@ Definition s64_is_multiple_of_const := is_multiple_of_const_asis 64 (nm1by1 64) 
 (** scratch memory (Int/DivMemModel.v over the regenerated coq/gen/DivDispatch.v): words really needed / reserved *)
 Definition m_mul_reserved (la lb : Z) : Z := g_mul_mem_exact (la + lb) (Z.min la lb).
 
+(** div_ops.rs::repr with the ownership arms regenerated from the source (Int/DivOwn.v; C02_typed_unconditional) *)
+Definition s64_typed_values := typed_values 64.
+
+(** rem_by_word / rem_by_dword with the index arithmetic of the source (Int/DivRemIdx.v; C02_rem_by_idx): the remainder
+    of a Large magnitude m (more than two words) by a word / double-word divisor d *)
+Definition s64_rem_idx (m d : Z) : result Z :=
+  if d <? 2 ^ 64 then rem_by_word_idx 64 (nm1by1 64) (nm2by1 64) (words_of 64 m) d
+  else rem_by_dword_idx 64 (nm2by2 64) (nm3by2 64) (nm4by2 64) (words_of 64 m) d.
+
 Extraction "model.ml"
   form_spec ibig_form_asis ubig_form_asis ubig_ibig_form_asis ibig_ubig_form_asis
   const_ubig_form_asis const_ibig_form_asis div_threshold_simple
   m_repr_div_rem m_repr_div m_repr_rem m_const_div_rem m_const_rem m_kernel_asis m_kernel_spec
   s64_repr_div_rem s64_repr_div s64_repr_rem s64_const_div_rem s64_const_rem s64_kernel_asis
   prim_form_asis prim_form_spec is_multiple_of_spec s64_is_multiple_of_const
-  hook_peak hook_reserved mul_peak_auto m_mul_reserved.
+  hook_peak hook_reserved mul_peak_auto m_mul_reserved s64_typed_values s64_rem_idx.
